@@ -83,6 +83,8 @@ func runC05(w *World) *Result {
 	r.Analysed["batch_line_variants"] = len(batch.Lines)
 	OpTableRule(w, batch, r, "R-C05-optable")
 	SiblingCells(w, bash, batch, r, "R-C05-optable")
+	r.Rule("R-C05-frame", "the local names of different functions are kept apart (cmd.exe has one flat set of variables): the prefix counts emitted function bodies and never returns to an earlier value", 1)
+	FrameRule(w, batch, r, "R-C05-frame")
 	BatchJumpRule(w, batch, r, "R-C05-jump")
 	AllocRule(w, batch, r, "R-C05-alloc")
 	PopRule(w, "batch", r, "R-C05-alloc")
